@@ -11,6 +11,12 @@ _hsf = COMMON["hs_dispatch"](only=("tls12",))
 _hsf.update(name="hs_dispatch_faults", malloc_may_fail=True)
 _hsf["assumptions"] = _hsf["assumptions"] + ["hs_dispatch_faults: every allocation of the dispatcher may fail (symbolic fault schedule on the tape)"]
 HARNESSES.append(_hsf)
+import os as _os
+_g9 = {"__file__": _os.path.join(_os.path.dirname(__file__), "..", "C09", "spec.py"), "COMMON": COMMON}
+exec(compile(open(_g9["__file__"]).read(), _g9["__file__"], "exec"), _g9)
+_dnf = dict(_g9["DN"], dir="C09", name="dn_attrs_faults", malloc_may_fail=True)
+_dnf["assumptions"] = _dnf["assumptions"] + ["dn_attrs_faults: every allocation may fail (symbolic fault schedule on the tape)"]
+HARNESSES.append(_dnf)
 HARNESSES.append(
     dict(name="ks13_faults", dir="C10", src="ks13.c", checks=COMMON["MEMCHECKS"], malloc_may_fail=True, leak_check=True,
          units=["matrixssl/hsNegotiateVersion.c"],
